@@ -554,6 +554,10 @@ static void run(int tier, long idx, vf_result *r)
 {
     static cs_scenario sc;
     int fam;
+    /* handles of the case's parameters start at 3, 8 or 16 (sizes at which
+       tables keyed by the handle begin and grow), by case number */
+    static const int fillers[3] = { 0, 5, 13 };
+    cs_param_fillers = fillers[idx % 3];
     for (fam = 0; fam < F_NFAM; ++fam) {
 	long n = fam_count(tier, fam);
 	if (idx < n) break;
